@@ -603,6 +603,71 @@ pub fn check_history(sum: &mut Summary) {
         run_cases(sum, cases, 3);
         done += m;
     }
+    if prop == "C05" {
+        c05_processes(sum, &mut rng);
+    }
+}
+
+/// C05 across processes: the real binary, started several times on the same file (each process draws its own hash
+/// keys), must print the same bytes; property-level check on the implementation alone
+fn c05_processes(sum: &mut Summary, rng: &mut Rng) {
+    if let Err(e) = cli::build_repo_binary() {
+        sum.failures.push(Failure { kind: "BAD".into(), what: format!("cannot build the binary: {}", e), case: json!({"kind": "build"}) });
+        return;
+    }
+    let n = if sum.tier == "thorough" { 200 } else { 24 };
+    let runs = if sum.tier == "thorough" { 6 } else { 4 };
+    let dir = format!("/verif/.build/c05proc-{}", std::process::id());
+    let _ = std::fs::remove_dir_all(&dir);
+    if std::fs::create_dir_all(&dir).is_err() {
+        return;
+    }
+    // the known shapes first (D2/D4 of the pinned tree), then generated documents biased to colliding identifiers
+    let mut docs: Vec<String> = vec![
+        "<r><p><Foo/><foo/></p><p></p></r>".into(),
+        "<r><p><Foo a=\"1\"/><foo a=\"2\"/><FOO/></p><p/><q><p><foo b=\"1\"/></p></q></r>".into(),
+        "<r><b><c a=\"1\"/></b><d><c a=\"1\"/></d><d_c a=\"1\"/><e><d><c/></d></e></r>".into(),
+    ];
+    let themes = [Theme::CaseVariants, Theme::Separators, Theme::SuffixTraps, Theme::Concat, Theme::Keywords, Theme::Mixed, Theme::Recurring];
+    let mut cfg = GenCfg::quick();
+    cfg.max_docs = 1;
+    while docs.len() < n {
+        let mut r = rng.fork();
+        let h = gen::gen_history(&mut r, &themes, &cfg);
+        if let Some(d) = h.docs.first() {
+            docs.push(d.to_xml());
+        }
+    }
+    let mut compared = 0u64;
+    for (i, xml) in docs.iter().enumerate() {
+        let path = format!("{}/in{}.xml", dir, i);
+        if std::fs::write(&path, xml).is_err() {
+            continue;
+        }
+        let mut outs: Vec<(Option<i32>, Vec<u8>)> = Vec::new();
+        for _ in 0..runs {
+            match std::process::Command::new(cli::REPO_BIN).arg(&path).output() {
+                Ok(o) => outs.push((o.status.code(), o.stdout)),
+                Err(e) => {
+                    sum.failures.push(Failure { kind: "BAD".into(), what: format!("cannot run the binary: {}", e), case: json!({"kind": "run"}) });
+                    let _ = std::fs::remove_dir_all(&dir);
+                    return;
+                }
+            }
+        }
+        compared += 1;
+        if outs.iter().any(|o| *o != outs[0]) && sum.failures.iter().filter(|f| f.kind == "PROP").count() < 3 {
+            let distinct: std::collections::BTreeSet<String> = outs.iter().map(|o| String::from_utf8_lossy(&o.1).to_string()).collect();
+            sum.failures.push(Failure {
+                kind: "PROP".into(),
+                what: format!("{} runs of the binary on the same file printed {} different outputs", runs, distinct.len()),
+                case: json!({"kind": "cli-repeat", "document": xml, "outputs": distinct.into_iter().collect::<Vec<_>>()}),
+            });
+        }
+    }
+    sum.extra.insert("documents_rendered_by_separate_processes".into(), json!(compared));
+    sum.extra.insert("processes_per_document".into(), json!(runs));
+    let _ = std::fs::remove_dir_all(&dir);
 }
 
 /// the character functions over the whole supported alphabet and convert_string on small strings / pool names:
@@ -854,6 +919,7 @@ pub fn gen_programs(rng: &mut Rng, n: usize, sxr: bool, thorough: bool) -> Vec<P
         let mut h = gen::gen_history(&mut r, &themes, &cfg);
         for d in h.docs.iter_mut() {
             let mut counter = 0;
+            crate::dom::strip_entity_markers(&mut d.root); // a deserializer rejects references to entities it does not know
             gen::uniquify(&mut d.root, &mut counter);
         }
         if let Some(mut p) = compile::make_program(h.docs, &format!("{:?}", h.theme), &opt) {
@@ -1206,7 +1272,7 @@ fn rewrite_items(rng: &mut Rng, items: &mut Vec<Item>, kind: usize, touched: &mu
                 match &items[i] {
                     Item::Text(_) => {
                         // non-empty text replaced by other non-empty content (white space is content too unless the reader trims)
-                        let choices: &[&str] = if ws_is_text { &["other", "42", "z z", "&", " ", "\n  "] } else { &["other", "42", "z z", "&"] };
+                        let choices: &[&str] = if ws_is_text { &["other", "42", "z z", "&", " ", "\n  ", "\u{E000}nbsp\u{E001}"] } else { &["other", "42", "z z", "&", "\u{E000}nbsp\u{E001}"] };
                         let t = rng.pick(choices).to_string();
                         items[i] = if t.trim().is_empty() { Item::Ws(t) } else { Item::Text(t) };
                         *touched += 1;
@@ -1476,6 +1542,30 @@ pub fn replay(prop: &str, cv: &Value) -> i32 {
             }
             None => 2,
         },
+        "cli-repeat" => {
+            if let Err(e) = cli::build_repo_binary() {
+                println!("BAD cannot build the binary: {}", e);
+                return 1;
+            }
+            let dir = format!("/verif/.build/c05replay-{}", std::process::id());
+            let _ = std::fs::create_dir_all(&dir);
+            let path = format!("{}/in.xml", dir);
+            let _ = std::fs::write(&path, cv["document"].as_str().unwrap_or(""));
+            let mut outs = std::collections::BTreeSet::new();
+            for _ in 0..12 {
+                if let Ok(o) = std::process::Command::new(cli::REPO_BIN).arg(&path).output() {
+                    outs.insert((o.status.code(), o.stdout));
+                }
+            }
+            let _ = std::fs::remove_dir_all(&dir);
+            if outs.len() > 1 {
+                println!("PROP 12 runs of the binary on the same file printed {} different outputs", outs.len());
+                1
+            } else {
+                println!("OK");
+                0
+            }
+        }
         "program" => {
             let sxr = prop == "C13";
             let docs: Vec<Doc> = cv["documents"].as_array().map(|a| a.iter().filter_map(|d| crate::xmlread::read_doc(d.as_str().unwrap_or("").as_bytes())).collect()).unwrap_or_default();
